@@ -41,6 +41,88 @@ def B(name, edits, note=""):
     return Variant(name, edits, None, None, False, note)
 
 
+def patch_edits(patch_text: str):
+    """Unified diff -> list of (relpath, old block, new block), one per hunk (located by content, so
+    line offsets do not matter).  None if the patch creates / deletes files."""
+    edits = []
+    rel = None
+    old: List[str] = []
+    new: List[str] = []
+
+    hint = [0]
+
+    def flush():
+        if rel is not None and (old or new) and old != new:
+            edits.append((rel, "".join(old), "".join(new), hint[0]))
+
+    for line in patch_text.splitlines(keepends=True):
+        if line.startswith("diff --git") or line.startswith("index "):
+            continue
+        if line.startswith("--- "):
+            flush()
+            old, new = [], []
+            if "/dev/null" in line:
+                return None
+            continue
+        if line.startswith("+++ "):
+            if "/dev/null" in line:
+                return None
+            rel = line[4:].strip()
+            rel = rel[2:] if rel.startswith("b/") else rel
+            continue
+        if line.startswith("@@"):
+            flush()
+            old, new = [], []
+            try:
+                hint[0] = int(line.split()[1].lstrip("-").split(",")[0])
+            except (IndexError, ValueError):
+                hint[0] = 0
+            continue
+        if rel is None:
+            continue
+        if line.startswith("\\"):
+            continue
+        tag, body = line[:1], line[1:]
+        if tag == " ":
+            old.append(body)
+            new.append(body)
+        elif tag == "-":
+            old.append(body)
+        elif tag == "+":
+            new.append(body)
+        elif line.strip() == "":
+            old.append("\n")
+            new.append("\n")
+    flush()
+    return edits
+
+
+def seeded_variants(prop: str) -> List[Variant]:
+    """The independently seeded changes kept under /verif/seeded for this property (realistic
+    breakages written by sub-agents that saw nothing of /verif): each must make this property's own
+    check report a violation."""
+    import glob
+    import json
+
+    root = os.path.join(os.path.dirname(os.path.dirname(HERE)), "seeded")
+    out = []
+    for d in sorted(glob.glob(os.path.join(root, "*"))):
+        mp = os.path.join(d, "meta.json")
+        pp = os.path.join(d, "patch.diff")
+        if not (os.path.exists(mp) and os.path.exists(pp)):
+            continue
+        with open(mp, encoding="utf-8") as fh:
+            meta = json.load(fh)
+        if meta.get("property") != prop or str(meta.get("status", "")).startswith("superseded"):
+            continue
+        with open(pp, encoding="utf-8") as fh:
+            edits = patch_edits(fh.read())
+        if not edits:
+            continue
+        out.append(Variant(f"seeded: {os.path.basename(d)}", edits, "*", None, False))
+    return out
+
+
 def tree_digest(repo: Repo) -> str:
     h = hashlib.sha256()
     for rel in sorted(repo.by_relpath):
@@ -61,11 +143,22 @@ def is_pristine(repo: Repo) -> bool:
 
 def build_overlay(repo: Repo, v: Variant):
     overlay = {}
-    for rel, old, new in v.edits:
+    for edit in v.edits:
+        rel, old, new = edit[:3]
         mod = repo.by_relpath.get(rel)
         if mod is None:
             return None
         src = overlay.get(rel, mod.source)
+        if src.count(old) > 1 and len(edit) > 3 and edit[3]:
+            # a hunk of a unified diff whose text occurs several times: the occurrence closest to
+            # the line the diff names
+            starts, pos = [], src.find(old)
+            while pos != -1:
+                starts.append(pos)
+                pos = src.find(old, pos + 1)
+            best = min(starts, key=lambda st: abs(src.count("\n", 0, st) + 1 - edit[3]))
+            overlay[rel] = src[:best] + new + src[best + len(old):]
+            continue
         if src.count(old) != 1:
             return None
         overlay[rel] = src.replace(old, new)
@@ -94,7 +187,7 @@ def _run_one(args):
     if v.rule is not None:  # mutant
         if res.error and not res.violations:
             return (v.name, "missed", f"analysis error instead of a violation: {res.error[:200]}")
-        hits = [o for o in res.violations if o.rule == v.rule and (v.within is None or v.within in o.construct)]
+        hits = [o for o in res.violations if v.rule in ("*", o.rule) and (v.within is None or v.within in o.construct)]
         if hits:
             return (v.name, "detected", f"{hits[0].rule} @ {hits[0].construct}")
         other = "; ".join(f"{o.rule} @ {o.construct}" for o in res.violations[:3])
@@ -116,6 +209,8 @@ def run_selftest(prop: str, tier: str, seed: int, repo: Repo) -> dict:
     if tier == "quick":
         mutants = [m for m in mutants if m.quick]
         benign = []
+    else:
+        mutants += seeded_variants(prop)
     rnd = random.Random(seed)
     rnd.shuffle(mutants)
     rnd.shuffle(benign)
@@ -146,6 +241,8 @@ def run_selftest(prop: str, tier: str, seed: int, repo: Repo) -> dict:
         "benign_applicable": sum(1 for r in results if r[0] not in names_m and r[1] in ("silent", "noisy")),
         "benign_silent": sum(1 for r in results if r[0] not in names_m and r[1] == "silent"),
         "skipped": sum(1 for r in results if r[1] == "skipped"),
+        "seeded_changes_detected": sum(1 for r in results if r[0].startswith("seeded: ") and r[1] == "detected"),
+        "seeded_changes_applicable": sum(1 for r in results if r[0].startswith("seeded: ") and r[1] in ("detected", "missed")),
         "pristine_tree": is_pristine(repo),
         "problems": [f"{r[0]}: {r[1]}: {r[2]}" for r in results if r[1] in ("missed", "noisy", "corpus-error")],
         "detected": {r[0]: r[2] for r in results if r[1] == "detected"},
